@@ -53,10 +53,13 @@ def md5_spec(data):
 
 def canon(via, uid):
     """the record an identifier names: a directory store of suffix ``fa`` accepts ``x`` and ``x.fa`` for the same
-    record; a sqlite store uses the identifier literally"""
+    record; a sqlite store uses the identifier literally, except that ``results/x`` (``logs/x`` for logs) -- the form its
+    own members report -- names ``x``.  An identifier that merely *begins* with a table name is an ordinary identifier."""
     kind, suffix = BACKENDS[via]
     if kind == "dir" and uid.endswith("." + suffix):
         return uid[: -len(suffix) - 1]
+    if kind == "sql" and uid.startswith("results/"):
+        return uid[len("results/"):]
     return uid
 
 
@@ -499,6 +502,10 @@ def gen_history(tier, seed):
     small = alphabet(["a", "ba", "a.b"], logs=LOGS[:1], drops=["a"])     # 12 operations
     tiny = alphabet(["a", "ba"], logs=LOGS[:1], drops=["a"])              # 10 operations
     wide = alphabet(IDS + EXTRA_IDS)
+    # identifiers that begin with, or are, the name of a table of the sqlite store, next to the records they must not touch
+    tables = alphabet(["a", "results_a", "results", "results/a"], logs=["logs_a.log"], drops=["a", "results"], modes=["a"])
+    for h in itertools.chain(*[itertools.product(tables, repeat=n) for n in (1, 2, 3)]):
+        yield ["sql", list(h)]
     for via in ("dir", "sql"):
         # exhaustive over the full alphabet
         for n in range(1, (4 if thorough else 3) + 1):
